@@ -318,7 +318,7 @@ const agg2CmpBodyRaw = `// check to see if anything needs to be created
 `
 
 const agg2MinMaxBodyRaw = `// check to see if anything needs to be created
-	if reuse == nil{
+	if reuse == nil && safe {
 		{{if .VV -}}
 		if swap{
 			reuse = NewDense(b.Dtype(), b.Shape().Clone(), WithEngine(e))
@@ -395,6 +395,12 @@ const agg2MinMaxBodyRaw = `// check to see if anything needs to be created
 	switch {
 		case !safe  && reuse == nil:
 			err = e.E.{{.Name}}(typ, dataA, dataB)
+			{{if not .VV -}}
+			if t.Shape().IsScalarEquiv() && !leftTensor {
+				// both operands have one element: the kernel left the result in the scalar
+				storage.Copy(typ, dataB, dataA)
+			}
+			{{end -}}
 			retVal = a
 		{{if .VV -}}
 		case  safe && reuse != nil:
